@@ -3,6 +3,8 @@ import FeatModel.Lemmas.C11Xml
 import FeatModel.Lemmas.C11Mesh
 import FeatModel.Lemmas.C11Graph
 import FeatModel.Lemmas.C11RoundTrip
+import FeatModel.Lemmas.C11RoundTrip2
+import FeatModel.Lemmas.C11Ini
 /-!
 # C11 — mesh/config files round-trip; malformed input is rejected without crashing
 
@@ -11,16 +13,20 @@ All theorems are about the model functions executed by `drv_c11` (`parseMeshFile
 `MeshFileReader`, `MeshFileWriter`, `Xml::Scanner`, `String::parse` and `Graph::serialize`/`Graph(buffer)`.
 
 Proved here: parser soundness for every input text (accepted ⇒ declared counts, tuple widths and vertex-index
-ranges hold), `parse ∘ print = id` and the byte-for-byte clause for the root mesh (all five mesh types, all sizes),
-the number and markup layers' print/read round trips, graph (de)serialisation round trip, and the exact shape of the
-known zero-domain-node defect.  Not proved (observed by correspondence + oracle only): round trip of mesh parts,
-attributes and partitions (`C11.FullRoundTrip` below), property-map dump/parse, memory safety of the C++ runtime.
+ranges of the root mesh hold), `parse ∘ print = id` and the byte-for-byte clause for mesh nodes (root mesh or none,
+mesh parts with mappings / own topology / attributes, partitions; all five mesh types, all sizes), property-map
+dump/parse for trees of any depth with admissible keys/values, the number and markup layers' print/read round trips,
+graph (de)serialisation round trip, and the exact shape of the known zero-domain-node defect.
+Not proved (observed by correspondence + oracle only): charts and `topology="parent"` parts (not modelled, tier B);
+that every node the parser returns satisfies the printable-node hypotheses (`C11.FullRoundTrip` below, soundness is
+proved for the root mesh only); memory safety of the C++ runtime.
 -/
 open FeatModel.C11
 
 /-- the full round-trip statement of the property for mesh nodes without charts: every node obtainable by parsing
     some file is reproduced exactly by parsing its written form (hence also byte for byte).  The proved part is
-    `C11.parse_print_mesh_partial` (root mesh only: `parts = []`, `partitions = []`). -/
+    `C11.parse_print_node_partial`: the same conclusion for every node satisfying explicit printable-node hypotheses;
+    missing is the link "every parsed node satisfies them" (proved for the root mesh: `C11.parser_soundness`). -/
 def C11.FullRoundTrip : Prop :=
   ∀ (text : Str) (sh : Shape) (dim : Nat) (n : Node), parseMeshFile text = .ok sh dim n →
     parseMeshFile (printMeshFile sh dim n) = .ok sh dim n
@@ -62,21 +68,61 @@ theorem C11.parse_total (text : Str) :
 
 /-! ## `parse ∘ print = id` and `print ∘ parse ∘ print = print` -/
 
-/-- Root mesh (vertices and topology) of every supported mesh type and every size: parsing the written file
-    gives back exactly the mesh.  Missing w.r.t. `C11.FullRoundTrip`: mesh parts, attributes, partitions. -/
-theorem C11.parse_print_mesh_partial (sh : Shape) (dim : Nat) (m : Mesh)
-    (hs : supported sh dim dim = true) (hwf : m.wf sh dim = true) (h64 : ∀ s ∈ m.sizes, s < 2 ^ 64) :
-    parseMeshFile (printMeshFile sh dim { mesh := some m, parts := [], partitions := [] })
-      = .ok sh dim { mesh := some m, parts := [], partitions := [] } :=
-  parse_print_mesh sh dim m hs hwf h64
+/-- Mesh node with a root mesh, any number of mesh parts (mappings, optional own topology, attribute sets) and
+    partitions, every supported mesh type and every size: parsing the written file gives back exactly the node.
+    Hypotheses: the root mesh is well-formed, names are trimmed and free of `"`, `<`, `>`, newline, counts equal the
+    declared sizes, numbers fit their C++ types, parts/attributes are sorted by name, patches are sorted and
+    duplicate-free (`PartOkFull`, `PartitionOk`).  `_partial` w.r.t. the property: charts and `topology="parent"`
+    parts are outside the model, and `C11.FullRoundTrip` (closure under the parser) is not derived. -/
+theorem C11.parse_print_node_partial (sh : Shape) (dim : Nat) (m : Mesh) (parts : List (Str × Part))
+    (partitions : List Partition)
+    (hs : supported sh dim dim = true) (hwf : m.wf sh dim = true) (h64 : ∀ s ∈ m.sizes, s < 2 ^ 64)
+    (hp : ∀ np ∈ parts, PartOkFull sh dim np.1 np.2)
+    (hsorted : parts.Pairwise (fun a b => strLt a.1 b.1 = true))
+    (hpt : ∀ p ∈ partitions, PartitionOk p) :
+    parseMeshFile (printMeshFile sh dim { mesh := some m, parts := parts, partitions := partitions })
+      = .ok sh dim { mesh := some m, parts := parts, partitions := partitions } :=
+  parse_print_node_full sh dim m parts partitions hs hwf h64 hp hsorted hpt
 
 /-- byte-for-byte clause for the same class: writing the parsed result reproduces the first output -/
-theorem C11.print_parse_print_mesh_partial (sh : Shape) (dim : Nat) (m : Mesh)
+theorem C11.print_parse_print_node_partial (sh : Shape) (dim : Nat) (m : Mesh) (parts : List (Str × Part))
+    (partitions : List Partition)
     (hs : supported sh dim dim = true) (hwf : m.wf sh dim = true) (h64 : ∀ s ∈ m.sizes, s < 2 ^ 64)
-    (sh' : Shape) (dim' : Nat) (n' : Node)
-    (h : parseMeshFile (printMeshFile sh dim { mesh := some m, parts := [], partitions := [] }) = .ok sh' dim' n') :
-    printMeshFile sh' dim' n' = printMeshFile sh dim { mesh := some m, parts := [], partitions := [] } :=
-  print_parse_print_mesh sh dim m hs hwf h64 sh' dim' n' h
+    (hp : ∀ np ∈ parts, PartOkFull sh dim np.1 np.2)
+    (hsorted : parts.Pairwise (fun a b => strLt a.1 b.1 = true))
+    (hpt : ∀ p ∈ partitions, PartitionOk p) (sh' : Shape) (dim' : Nat) (n' : Node)
+    (h : parseMeshFile (printMeshFile sh dim { mesh := some m, parts := parts, partitions := partitions }) = .ok sh' dim' n') :
+    printMeshFile sh' dim' n' = printMeshFile sh dim { mesh := some m, parts := parts, partitions := partitions } :=
+  print_parse_print_node sh dim m parts partitions hs hwf h64 hp hsorted hpt sh' dim' n' h
+
+/-- a node without root mesh (mesh-part / partition files): the written root markup carries no mesh type, so the
+    type-detecting entry point answers `notype`, and the parse with the known type gives the node back -/
+theorem C11.reparse_print_nomesh_partial (sh : Shape) (dim : Nat) (parts : List (Str × Part))
+    (partitions : List Partition) (hdim : dim + 1 < 2 ^ 64)
+    (hp : ∀ np ∈ parts, PartOkFull sh dim np.1 np.2)
+    (hsorted : parts.Pairwise (fun a b => strLt a.1 b.1 = true))
+    (hpt : ∀ p ∈ partitions, PartitionOk p) :
+    parseMeshFile (printMeshFile sh dim { mesh := none, parts := parts, partitions := partitions }) = .notype ∧
+    reparse sh dim (printMeshFile sh dim { mesh := none, parts := parts, partitions := partitions })
+      = .ok sh dim { mesh := none, parts := parts, partitions := partitions } :=
+  reparse_print_nomesh sh dim parts partitions hdim hp hsorted hpt
+
+/-! ## property maps (INI): `PropertyMap::read ∘ PropertyMap::write = id` -/
+
+/-- Dump/parse identity for property trees of arbitrary depth (`Forest` = nested sections in write order):
+    keys non-empty, trimmed, without `=`, `#`, newline; values trimmed, without `#`, newline, not ending in `&`;
+    no entry with key `[…` and value `…]` (the known defect class 7); section names non-empty, trimmed, without `#`,
+    newline; keys and sibling sections strictly sorted without regard to case.  For both `replace` modes. -/
+theorem C11.ini_roundtrip (replace : Bool) (es : List (Str × Str)) (f : IniRT.Forest)
+    (hes : ∀ kv ∈ es, IniRT.EntOk kv) (hsorted : IniRT.SortedKeys es) (hf : f.Ok) :
+    iniRead replace (iniWrite (IniRT.treeMap es f)) = some (IniRT.treeMap es f) :=
+  ini_roundtrip_tree replace es f hes hsorted hf
+
+/-- byte-for-byte clause for property maps -/
+theorem C11.ini_roundtrip_bytes (replace : Bool) (es : List (Str × Str)) (f : IniRT.Forest)
+    (hes : ∀ kv ∈ es, IniRT.EntOk kv) (hsorted : IniRT.SortedKeys es) (hf : f.Ok) :
+    (iniRead replace (iniWrite (IniRT.treeMap es f))).map iniWrite = some (iniWrite (IniRT.treeMap es f)) :=
+  ini_roundtrip_tree_bytes replace es f hes hsorted hf
 
 /-! ## number layer (`String::parse<T>` against `operator<<`) -/
 
